@@ -208,8 +208,13 @@ def robofabOrderKey : Str := "org.robofab.opentype.featureorder".toList
 def robofabFeaturesKey : Str := "org.robofab.opentype.features".toList
 
 /-- collections whose iteration order is a function of their contents: what `sortDedup` / `sortEntries`
-    model (`HashMap.keys.sorted` = the keys of a hash map collected into a `Vec` and `.sort()`ed) -/
-def orderedCollections : List String := ["BTreeSet", "BTreeMap", "HashMap.keys.sorted"]
+    model (`HashMap.keys.sorted` = the keys of a hash map collected into a `Vec` and `.sort()`ed), and the two
+    harmless shapes of a walk over a hashed collection: collected and sorted at once, or consumed by an
+    order-insensitive consumer (`any`, `all`, `count`, `sum`, `contains`, `min`, `max`, collected into a set/map) -/
+def orderedCollections : List String :=
+  ["BTreeSet", "BTreeMap", "HashMap.keys.sorted",
+   -- walks over a hashed collection whose order cannot reach the result (extractor's classification):
+   "Hash.sorted", "Hash.order-insensitive"]
 
 /-! ### what is written from `BTreeMap`s (groups.plist, kerning.plist, contents.plist)
 
